@@ -5,7 +5,7 @@
 //! `std::vec::IntoIter` over the ground-truth list. Whatever `core`'s own iterator does
 //! for an operation is by definition the expected answer.
 
-use crate::dynit::{model, Dyn, Item};
+use crate::dynit::{model, model_ord, Dyn, Item};
 use crate::module::{take_invalid, Module};
 use crate::ops::{Event, Kind, Op, Prop};
 use std::fmt::Write as _;
@@ -667,7 +667,7 @@ pub fn run_history(m: &'static Module, history: &[Event], opts: &ExecOpts) -> Ru
                         Some(Handle::E(Slot {
                             kind: Kind::Iter,
                             sut: Some(Dyn(f())),
-                            model: Some(model(m.disc.to_vec())),
+                            model: Some(model_ord(m.disc.to_vec(), m.ord_reversed)),
                             base: 0,
                             total: n,
                             seen_none: false,
@@ -709,7 +709,7 @@ pub fn run_history(m: &'static Module, history: &[Event], opts: &ExecOpts) -> Ru
                             Some(Handle::E(Slot {
                                 kind: Kind::Range,
                                 sut: Some(Dyn(f(i, j))),
-                                model: Some(model(sub)),
+                                model: Some(model_ord(sub, m.ord_reversed)),
                                 base: i,
                                 total,
                                 seen_none: false,
